@@ -679,8 +679,9 @@ func runOne(t *testing.T, w *gwork, fp simrt.FaultPlan, mp simrt.MapPolicy, mapS
 				return rr
 			}
 		}
-		if len(d.UserTables) != len(tbls) {
-			rr.violation = &simh.Violation{Class: "file/extra-tables", Message: fmt.Sprintf("target %d holds tables %v", id, d.UserTables)}
+		if len(d.Tables) != len(tbls) {
+			// (tables of the writer's own, not registered as feature tables, are its business)
+			rr.violation = &simh.Violation{Class: "file/extra-tables", Message: fmt.Sprintf("target %d registers %d feature tables, %d were created (tables: %v)", id, len(d.Tables), len(tbls), d.UserTables)}
 			return rr
 		}
 	}
